@@ -11,6 +11,7 @@ the new ones back. The theorem below holds for every `self`, every outcome of th
 operations in every order (`getPending` ranges over a Go map).
 -/
 import Gribi.Gen.AddEntryInternal
+import Gribi.Gen.RibAddEntry
 namespace Gribi.GenEquiv.RibAdd
 open Gribi Gribi.Gen
 
@@ -235,8 +236,21 @@ theorem retry_extends (self : Self)
       exact ⟨t1 ++ t2, by rw [h2, h1, List.append_assoc]⟩
     | some err => exact ⟨t1, by simpa using h1⟩
 
+/-- `AddEntry`: an empty instance name is refused without touching anything; otherwise
+`addEntryInternal` is called once, from empty result lists, and what it leaves in them is returned
+**as it is** (in acknowledgement order, nothing added, dropped or reordered) — or, on a fatal
+error, nothing but the error -/
+theorem gen_ribAddEntry (ni : String) (op : Option AFTOperationC) (oksOut failsOut : List RibOpResult) (intErr : Option Status) :
+    Gen.ribAddEntry ni op oksOut failsOut intErr =
+      if ni = "" then ([], [], some ⟨.Unknown, .none⟩, [])
+      else match intErr with
+        | none => (oksOut, failsOut, none, [Eff.addEntryInternal ni op])
+        | some e => ([], [], some e, [Eff.addEntryInternal ni op]) := by
+  unfold Gen.ribAddEntry
+  by_cases h : ni = "" <;> cases intErr <;> simp [h]
+
 theorem gen_ribadd_translated :
     Gen.addEntryInternal_problem = none ∧ Gen.getPending_problem = none ∧ Gen.addPending_problem = none ∧
-    Gen.rmPending_problem = none := ⟨rfl, rfl, rfl, rfl⟩
+    Gen.rmPending_problem = none ∧ Gen.ribAddEntry_problem = none := ⟨rfl, rfl, rfl, rfl, rfl⟩
 
 end Gribi.GenEquiv.RibAdd
